@@ -217,7 +217,7 @@ func genC11(g *Gen) {
 
 	// long contents (sizes around powers of two), read through and walked back
 	rl := g.Rand()
-	for _, sz := range []int{63, 64, 65, 127, 128, 129, 255, 256, 257, 1023, 1024, 1025} {
+	for _, sz := range g.WithRandomSizes([]int{63, 64, 65, 127, 128, 129, 255, 256, 257, 1023, 1024, 1025}, g.Pick(4, 30), 2, g.Pick(130, 1025)) {
 		if sz > g.Pick(130, 1025) {
 			continue
 		}
